@@ -41,6 +41,7 @@ FIXES = [
     ("fix: drop an owner's earned-fee record of a denom", "D18", ["C13"], "regress/C13/d18-stale-owner-total-after-partial-withdrawal.json"),
     ("fix: cap the minimum deposit at the largest amount", "D19", ["C20"], "regress/C20/d19-price-times-multiple-overflows.json"),
     ("fix: MockToken.ToMinCoin returns an error", "D20", ["C20"], "regress/C20/d20-main-unit-price-overflows-conversion.json"),
+    ("fix: the requests-of-a-batch and responses-of-a-batch queries", "D21", ["C17"], "regress/C17/d21-batch-queries-accept-a-short-context-id.json"),
 ]
 
 
